@@ -395,7 +395,7 @@ def _exec_step(W, st, model, log, stats, bump, seed, progress=False):
     if fault and fault.get("auto"):
         dr = session.dry_run(W.root, do_step, st, W.cfg, pool_seed)
         fr = rng_of(fault["rseed"])
-        fault = session.place_fault(fr, dr["events"], eligible)
+        fault = session.place_fault(fr, dr["events"], eligible, kinds=("kill", "kill", "io_error", "io_error", "torn", "torn", "interrupt"))
         st["fault"] = fault
     before = W.observe()
     src_sha = {p.name: sha1_file(p) for p in (W.bin, W.cbin, W.ch) if p.exists()}
@@ -403,7 +403,7 @@ def _exec_step(W, st, model, log, stats, bump, seed, progress=False):
     stats["steps"] += len(res["events"])
     if not progress:
         stats.setdefault("_step_events", []).append(res["events"])
-    fired = res["fired"] if res["fired"] and res["fired"]["kind"] in ("kill", "torn", "io_error") else None
+    fired = res["fired"] if res["fired"] and res["fired"]["kind"] in ("kill", "torn", "io_error", "interrupt") else None
     out = res["outcome"]
     failed = fired is not None or (out is not None and "exc" in out) or out is None
     after = W.observe()
@@ -677,7 +677,7 @@ def sweep_plans(tier, verif_seed):
                 if not eligible(lab):
                     continue
                 op = lab.split(":", 1)[0]
-                kinds = ["kill", "io_error"] + (["torn"] if op in ("write", "tofile") else [])
+                kinds = ["kill", "io_error", "interrupt"] + (["torn"] if op in ("write", "tofile") else [])
                 for kind in kinds:
                     f = {"kind": kind, "at": k, "label": lab}
                     if kind == "torn":
